@@ -4,6 +4,7 @@ import QG.Props.C01
 #print axioms QG.C01.ones_spec
 #print axioms QG.C01.empty_layer_list
 #print axioms QG.C01.efficient_too_many_operands
+#print axioms QG.C01.numOperands_closed_form
 #print axioms QG.C01.standard_linear
 #print axioms QG.C01.efficient_linear
 #print axioms QG.C01.ones_linear
@@ -13,3 +14,5 @@ import QG.Props.C01
 #print axioms QG.C01.backends_agree
 #print axioms QG.C01.singleLayer_wf
 #print axioms QG.C01.msb_first
+#print axioms QG.C01.layer_eq_prod_embed
+#print axioms QG.C01.binary_layer_spec
